@@ -3,7 +3,7 @@
    enc/dec and the compute callbacks are arbitrary; the only codec premise is dec (enc v) = v for successful
    encodes.  sc : nat -> bool is the fault script: one position per codec/store call, in call order. *)
 From Coq Require Import NArith List Bool.
-From Verif.C06_Typed Require Import Model StoreModel Corr Proofs StoreProofs Examples.
+From Verif.C06_Typed Require Import Model StoreModel Corr Proofs StoreProofs Examples Mutex.
 Import ListNotations.
 
 (* a freshly constructed TypedValue over any raw contents is coherent *)
@@ -66,6 +66,38 @@ Theorem C06_no_lost_update : forall (V : Type) (zero : V) enc dec,
             holds V zero dec b (Nat.iter n g c).
 Proof. exact no_lost_update. Qed.
 
+(* What "calls are atomic steps" rests on (Mutex.v): operations are lists of micro-steps (one per store call, codec
+   call, cache assignment) on an arbitrary shared state; threads are scheduled arbitrarily, any thread may start any
+   operation whenever the lock is free, and ONLY THE LOCK HOLDER executes micro-steps (= every store/codec call of an
+   operation lies inside its critical section).  Then in every reachable configuration the shared state is the serial
+   execution, in lock-acquisition order, of the operations acquired so far (the running one up to a prefix [pre]). *)
+Theorem C06_locked_calls_serial : forall (S : Type) (s0 : S) (c : cfg S), reach S s0 c ->
+  match holder c with
+  | None => sh c = serial S (map snd (log c)) s0
+  | Some (i, rest) => exists lg pre, log c = lg ++ [(i, pre ++ rest)] /\ sh c = run_micro S pre (serial S (map snd lg) s0)
+  end.
+Proof. exact locked_serial. Qed.
+
+(* Set and Delete of the model are the composition of their micro-steps (store write; cache assignment). *)
+Theorem C06_set_delete_micro : forall (V : Type) (enc : V -> option bytes),
+  (forall sc s p v b, sc p = false -> sc (S p) = false -> enc v = Some b ->
+     st (set V enc sc s p v) = run_micro (tv V) (set_micro V v b) s) /\
+  (forall sc s p, sc p = false -> st (delete V sc s p) = run_micro (tv V) (delete_micro V) s).
+Proof. intros V enc; split; [exact (set_is_micro V enc) | exact (delete_is_micro V)]. Qed.
+
+(* Without that premise the property is false: Set(1) and Set(2) on a fresh TypedValue, the store write of Set not
+   covered by the lock: store(1); store(2); cache(2); cache(1) leaves cache = 1 over raw = enc 2 - not coherent and
+   equal to neither serial order.  (The harness starts a second call at every store/codec/callback boundary of a
+   first one and judges results and cache-vs-store, so a tree with this behaviour is reported with the schedule.) *)
+Theorem C06_refuted_narrowed_lock :
+  encV 1 = Some [0; 1]%N /\ encV 2 = Some [0; 2]%N /\
+  exists il, merge set1 set2 il /\
+    let s := run_micro (tv N) il (fresh (V:=N) None) in
+    ~ coherent N decV s /\
+    s <> serial (tv N) [set1; set2] (fresh (V:=N) None) /\
+    s <> serial (tv N) [set2; set1] (fresh (V:=N) None).
+Proof. exact narrowed_lock_refuted. Qed.
+
 (* The pinned code violated failure atomicity (D06, repaired by a fix: commit): Set(7); Compute(-> 0xFFFF). *)
 Theorem C06_refuted_compute_encode :
   raw d06_pre = Some [0; 7]%N /\ encV 65535 = None /\
@@ -109,6 +141,10 @@ Example C06_codec_premise_holds : forall v b, encV v = Some b -> decV b = Some v
 Proof. exact decV_encV. Qed.
 Example C06_coherent_nontrivial : coherent N decV (mkTv (Some [0; 7; 9]%N) (Some 7%N) (Some true)).
 Proof. exact coherent_nontrivial. Qed.
+Example C06_locked_two_sets :
+  exists c, reach (tv N) (fresh (V:=N) None) c /\ holder c = None /\ map fst (log c) = [0%nat; 1%nat] /\
+    sh c = mkTv (Some [0; 2]%N) (Some 2%N) (Some true) /\ coherent N decV (sh c).
+Proof. exact locked_two_sets. Qed.
 Example C06_d06_regression : result d06_fixed = RErr EEncode /\ st d06_fixed = d06_pre.
 Proof. exact d06_regression. Qed.
 
@@ -121,6 +157,9 @@ Print Assumptions C06_get_two_phase.
 Print Assumptions C06_has_two_phase.
 Print Assumptions C06_no_lost_update.
 Print Assumptions C06_refuted_compute_encode.
+Print Assumptions C06_locked_calls_serial.
+Print Assumptions C06_set_delete_micro.
+Print Assumptions C06_refuted_narrowed_lock.
 Print Assumptions C06_store_failure_atomic.
 Print Assumptions C06_store_last_written.
 Print Assumptions C06_store_set_get.
